@@ -73,6 +73,10 @@ void c20_inst_all()
     DenseVector<DT, IT> c(ab);
     DenseVectorBlocked<DT, IT, 2> cb(a);
     a.template deserialize<DT2, IT2>(std::vector<char>());
+    // cross-type clones where only one of the two types changes (Container::assign shares the unchanged arrays)
+    DenseVector<DT, IT2> m1; DenseVector<DT2, IT> m2;
+    a.clone(m1, CloneMode::Deep);
+    a.clone(m2, CloneMode::Deep);
   }
   {
     SparseVector<DT, IT> a, a2; SparseVector<DT2, IT2> b;
